@@ -209,6 +209,31 @@ R.contract(
     max_paths=40000,
 )
 
+
+# ------------------------------------------------------------------------------------------------- examples inside object schemas (request bodies): extract_from_schema
+V2 = Opq("ExampleValue")
+PropSchema = lambda: DictOf(optional={"example": V2, "examples": ListOf(V2, [0, 1, 2], widen=False), "type": Const("string")})
+OWN = "(([{p}['example']] if 'example' in {p} else []) + (list({p}['examples']) if 'examples' in {p} else []))"
+OWN_A, OWN_B = OWN.format(p="schema['properties']['a']"), OWN.format(p="schema['properties']['b']")
+R.contract(
+    EX + "extract_from_schema",
+    prop="C17",
+    args={"operation": Opq("Any"), "schema": DictOf(required={"properties": DictOf(required={"a": PropSchema(), "b": PropSchema()}), "type": Const("object")}),
+          "example_field_name": Const("example"), "examples_field_name": Const("examples")},
+    raises=[],
+    ensures={
+        # every example value of every property is sent: it occurs, verbatim and under its own property, in at least one of the objects built for the body
+        "every_property_example_occurs_under_its_own_name": "all(any('a' in o and o['a'] is v for o in result) for v in " + OWN_A + ") and all(any('b' in o and o['b'] is v for o in result) for v in " + OWN_B + ")",
+        # and an object never carries a value that is not one of that property's own examples
+        "objects_hold_only_own_examples": "all(implies('a' in o, any(o['a'] is v for v in " + OWN_A + ")) and implies('b' in o, any(o['b'] is v for v in " + OWN_B + ")) for o in result)",
+        "as_many_objects_as_the_longest_example_list": "length(result) == max(length(" + OWN_A + "), length(" + OWN_B + "))",
+        "a_property_with_examples_is_in_every_object": "all(iff('a' in o, length(" + OWN_A + ") > 0) and iff('b' in o, length(" + OWN_B + ") > 0) for o in result)",
+    },
+    bounded_note="objects with 2 properties, each with an optional `example` and up to 2 `examples`",
+    inline=True,
+    max_paths=20000,
+)
+
 LEVEL_TEXT = ("Deductive coverage postcondition on the real combination generators for example lists up to a stated size (labelled bounded), plus the round-robin "
               "arithmetic lemma for all sizes; extraction of examples from the document is not decided here.")
 LEVEL_NOTE = "Trusted: itertools cycle/islice (E5), fill-in generation (E1/E2), pyvc semantics (E9)."
